@@ -25,7 +25,8 @@ def job(args):
     from sa.model import AnalysisError
     import traceback
     os.environ['VERIF_BOUNDED_DEPTH'] = '3' if deep else '2'
-    os.environ['VERIF_INNER_JOBS'] = '1'
+    os.environ['VERIF_BOUNDED_COMBS'] = '' if deep else '0'
+    os.environ['VERIF_INNER_JOBS'] = '4' if deep else '1'
     d = os.path.join(VERIF, kind, name)
     tmp = tempfile.mkdtemp(prefix='corpus_')
     res = dict(kind=kind, name=name, fired={}, errors={})
